@@ -7,6 +7,7 @@ import (
 	"fmt"
 	"github.com/zeebo/bencode"
 	"io"
+	"math"
 	"net/http"
 	nurl "net/url"
 	"strings"
@@ -233,6 +234,9 @@ func (torrent *Torrent) MetadataComplete() error {
 			}
 			if path == nil {
 				return errors.New("file has no path")
+			}
+			if f.Length < 0 || f.Length > math.MaxInt64-length {
+				return errors.New("bad file length")
 			}
 			files = append(files,
 				Torfile{Path: path,
